@@ -131,10 +131,10 @@ def evaluate_decode_length(f):
         cases += [(header[:k], 'OutOfByteDataError') for k in range(0, len(header))]
         if n > 0:
             cases += [(header, 'MissingDataError'), (header + bytes(n - 1), 'MissingDataError')]
-        for data, want in cases:
+        for data, want, enforce_ in [(d_, w_, e_) for d_, w_ in cases for e_ in ((True, False) if len(pn) > 2 else (True,))]:
             env = {pn[0]: data, pn[1]: 0}
             if len(pn) > 2:
-                env[pn[2]] = True
+                env[pn[2]] = enforce_        # a definite length is treated alike whether or not the indefinite form would be allowed
             try:
                 got, _e = evalexpr.run_function(f, env)
                 got = tuple(got) if isinstance(got, (tuple, list)) else got
